@@ -28,16 +28,22 @@
      C03_torn_write_checker_partial    the checker-level statement the two follow from: for ANY log accepted by the
                                        strict checker (e.g. the interposed log of the C, which the extracted checker
                                        replays) whose values are bytes
-   What is missing for the CrashShape of DESIGN.md (why _partial): (1) nothing is said about the 32-byte file header
-   (valid, length field 0 until close); (2) nothing is said about the TARGETS of links and index entries (that every
-   non-zero item_next / item_prev / head-table / index entry points to a completed chunk of the right kind); (3) that a
-   torn header is never CRC-valid-but-wrong (the burst argument of C04) is not proved here - the statement is about
+     C03_shape_file_header             at every crash point after the first two backend calls (O_TRUNC, file header) and
+                                       before the very last write of jls_wr_close, the first 32 bytes of the file are the
+                                       file header written by jls_wr_open: CRC-valid, length field 0, the format version
+                                       (full, clean points; _open: the run without jls_wr_close, every k >= 2)
+     C03_shape_torn_file_header_partial  a torn write that is not at offset 0 leaves those 32 bytes alone (the only writes
+                                       at offset 0 are the two file-header writes: open and the last write of close)
+   What is missing for the CrashShape of DESIGN.md (why _partial): (1) the torn LAST write of jls_wr_close (the file header
+   being replaced in place) is not characterised; (2) nothing is said about the TARGETS of links and index entries (that
+   every non-zero item_next / item_prev / head-table / index entry points to a completed chunk of the right kind); (3) that
+   a torn header is never CRC-valid-but-wrong (the burst argument of C04) is not proved here - the statement is about
    which bytes can differ, not about what a reader concludes; (4) the payload of a TRACK_*_HEAD chunk during a head-table
    update (two writes) is unconstrained, as in C14.
    Guards: no model fault; bounded log (see Properties_C14_writer.v); for the torn statements also "every value written
    is a byte (< 256)" - the model's byte lists are lists of N, the guard is stated on the log (decidable:
    wmw_log_bytes_b) and not derived from a condition on the program's arguments.
-   Proofs: WmWriteOnce4.v (clean points), WmWriteOnce5.v (torn writes). *)
+   Proofs: WmWriteOnce4.v (clean points), WmWriteOnce5.v (torn writes, file header). *)
 From Coq Require Import NArith ZArith List Bool.
 From JLS Require Import Generated CrcDefs Spec Format WriteOnce WriteOnceProofs WmRaw WmCore WmTs WmFsr WriterModel WmProofs
                         WmWriteOnce WmWriteOnce2 WmWriteOnce3 WmWriteOnce4 WmWriteOnce5.
@@ -112,6 +118,58 @@ Theorem C03_shape_torn_link_partial :
       forall i, nth (N.to_nat i) f' 0 <> nth (N.to_nat i) f 0 -> (off <= i /\ i < off + 8) \/ (off + 28 <= i /\ i < off + 32).
 Proof. exact wmw_crash_torn_link. Qed.
 Print Assumptions C03_shape_torn_link_partial.
+
+(* the file header: jls_wr_open; p; jls_wr_close, every crash point from the third backend call up to (not including) the last *)
+Theorem C03_shape_file_header :
+  forall (summ1 : N -> list N -> wm_sentry) (summN : bool -> list wm_sentry -> wm_sentry) (p : list wop),
+  let st := fst (wm_run_full summ1 summN p) in
+  wm_st_fault st = false ->
+  (forall off b, In (WmWrite off b) (wm_st_log st) ->
+     off + N.of_nat (length b) < 18446744073709551616 /\ N.of_nat (length b) < 4294967296) ->
+  forall k, (2 <= k < length (wmw_evs (wm_st_log st)))%nat ->
+    let f := wo_file_after (firstn k (wmw_evs (wm_st_log st))) in
+    firstn 32 f = fm_encode_file_header {| fm_fh_length := 0; fm_fh_version := JLS_FORMAT_VERSION_U32 |} /\
+    fm_decode_file_header f = Some {| fm_fh_length := 0; fm_fh_version := JLS_FORMAT_VERSION_U32 |}.
+Proof. exact wmw_crash_file_header. Qed.
+Print Assumptions C03_shape_file_header.
+
+(* the same for a writer that is never closed: every crash point from the third backend call on *)
+Theorem C03_shape_file_header_open :
+  forall (summ1 : N -> list N -> wm_sentry) (summN : bool -> list wm_sentry -> wm_sentry) (p : list wop),
+  let st := fst (wm_steps summ1 summN wm_api_open p []) in
+  wm_st_fault st = false ->
+  (forall off b, In (WmWrite off b) (wm_st_log st) ->
+     off + N.of_nat (length b) < 18446744073709551616 /\ N.of_nat (length b) < 4294967296) ->
+  forall k, (2 <= k)%nat ->
+    let f := wo_file_after (firstn k (wmw_evs (wm_st_log st))) in
+    firstn 32 f = fm_encode_file_header {| fm_fh_length := 0; fm_fh_version := JLS_FORMAT_VERSION_U32 |} /\
+    fm_decode_file_header f = Some {| fm_fh_length := 0; fm_fh_version := JLS_FORMAT_VERSION_U32 |}.
+Proof. exact wmw_crash_file_header_open. Qed.
+Print Assumptions C03_shape_file_header_open.
+
+Theorem C03_shape_torn_file_header_partial :
+  forall (summ1 : N -> list N -> wm_sentry) (summN : bool -> list wm_sentry -> wm_sentry) (p : list wop),
+  let st := fst (wm_run_full summ1 summN p) in
+  wm_st_fault st = false ->
+  (forall off b, In (WmWrite off b) (wm_st_log st) ->
+     off + N.of_nat (length b) < 18446744073709551616 /\ N.of_nat (length b) < 4294967296) ->
+  forall k off b, nth_error (wmw_evs (wm_st_log st)) k = Some (WoWrite off b) -> (2 <= k)%nat -> off <> 0 ->
+  forall j,
+    let f := wo_file_after (firstn k (wmw_evs (wm_st_log st))) in
+    firstn 32 (wo_apply_write f off (firstn j b)) = firstn 32 f.
+Proof. exact wmw_crash_torn_file_header. Qed.
+Print Assumptions C03_shape_torn_file_header_partial.
+
+(* the only writes at offset 0: the log of jls_wr_open; p (no close) is O_TRUNC, the file header with length 0, then
+   no write at offset 0 *)
+Theorem C03_writer_log_head :
+  forall (summ1 : N -> list N -> wm_sentry) (summN : bool -> list wm_sentry -> wm_sentry) (p : list wop),
+  let st := fst (wm_steps summ1 summN wm_api_open p []) in
+  wm_st_fault st = false ->
+  exists l, wm_st_log st = l ++ [WmWrite 0 (fm_encode_file_header {| fm_fh_length := 0; fm_fh_version := JLS_FORMAT_VERSION_U32 |}); WmTrunc 0] /\
+            forall b, ~ In (WmWrite 0 b) l.
+Proof. exact wmw_steps_log_shape. Qed.
+Print Assumptions C03_writer_log_head.
 
 (* checker level: any write accepted by the strict checker in a state that satisfies wo_inv with the file's bytes *)
 Theorem C03_torn_write_checker_partial : forall s f off b s' j,
